@@ -472,6 +472,34 @@ def check_fitted(case, ctx):
             for n, a, b in zip(ALL, full, f4):
                 ctx.check(same([a], [b]), "depends-on-retract", dict(desc, feature=n, mode=case["retract"]["mode"]),
                           f"{n}: {a!r} -> {b!r} after changing only retract samples ({case['retract']['mode']})")
+    # (6) a kept feature object follows the curve (every third case: it refits the curve)
+    if case["scale"]["pow2"] % 3 == 0 and fit["segment"] == 0:
+        kept_instance(idnt, ctx, desc)
+
+
+def kept_instance(idnt, ctx, desc):
+    """a feature object that is kept while the curve is refitted: its feat_* methods read the curve's current
+    approach data, fit and contact point (features depend only on those, not on an earlier state)"""
+    from nanite.rate.features import IndentationFeatures as IF
+    inst = IF(idnt)
+    with fitgen.catch() as box:
+        first = [float(getattr(inst, n)()) for n in ALL]
+        # refit with another weighting and a contact point moved by construction (fixed elsewhere)
+        pi = idnt.get_initial_fit_parameters()
+        x = idnt[idnt.fit_properties["x_axis"]][idnt["segment"] == 0]
+        pi["contact_point"].set(value=float(x[len(x) // 3]), vary=False)
+        idnt.fit_model(params_initial=pi, weight_cp=0)
+        again = [float(getattr(inst, n)()) for n in ALL]
+        fresh = IF.compute_features(idnt)
+    if box["exc"] is not None or not idnt.fit_properties.get("success"):
+        ctx.event("kept_instance_skipped")
+        return
+    ctx.event("kept_instance_compared")
+    for n, a, b in zip(ALL, again, fresh):
+        ctx.check(same([a], [b]), "kept-instance-stale", dict(desc, feature=n),
+                  f"{n}: a kept IndentationFeatures object returns {a!r} after the curve was refitted, "
+                  f"compute_features on the curve gives {b!r}")
+    del first
 
 
 def check_unfitted(case, ctx):
